@@ -4,6 +4,7 @@ import random
 import contracts.atts as A
 from pyvc.verify import verify
 from bounded.common import Suite, FmtStr, Chunk, fmtstr, cells, ATT_POOL, mk, layouts
+from spec import sgr
 
 LEVEL = "exploration"
 ASSUMPTIONS = [
@@ -195,6 +196,9 @@ def apply_case(case):
     f = FmtStr(*[Chunk(t, dict(a)) for t, a in case["runs"]])
     want, rem = case["want"], case["rem"]
     base = cells(f)
+    if case.get("order", 0) < 0.5:
+        from bounded.common import fill_caches
+        fill_caches(f)          # half of the cases: formatting is applied to a value that was already displayed
     nums = {k: (FG[v] if k == "fg" else BG[v] if k == "bg" else v) for k, v in want.items()}
 
     def expect():
@@ -221,6 +225,9 @@ def apply_case(case):
             if pos:
                 results["style="] = fmtstr(f, *pos[:-1], style=pos[-1])
         for k, r in results.items():
+            shown, final, only = sgr.run(str(r))
+            if [x for x in shown] != exp:
+                return f"{k}: str() of the result displays {shown}, expected {exp}"
             if cells(r) != exp:
                 return f"{k}: result runs {r.chunks}, expected every character to get {nums} on top of its own attributes"
             if r.s != f.s:
